@@ -497,16 +497,20 @@ def canon(fn) -> str:
     for sc in _nested_scopes(fn):
         if isinstance(sc, (ast.FunctionDef, ast.AsyncFunctionDef)):
             _flatten_else(sc)
-    _norm_loops(fn)
     try:
-        _inline_temps(fn)
-        # nested functions are scopes of their own: their single-assignment locals get the same treatment
-        for sc in _nested_scopes(fn):
-            if isinstance(sc, (ast.FunctionDef, ast.AsyncFunctionDef)):
-                _norm_loops(sc)
-                _inline_temps(sc)
-                _norm_loops(sc)
-        _norm_loops(fn)      # a loop body reduced to a single append by the inlining is a comprehension too
+        # to a fixpoint: a loop body reduced to a single append by the inlining is a comprehension, and
+        # a comprehension bound to a name that is returned at once is a temporary
+        for _ in range(6):
+            before = ast.dump(fn)
+            _norm_loops(fn)
+            _inline_temps(fn)
+            # nested functions are scopes of their own: their single-assignment locals get the same treatment
+            for sc in _nested_scopes(fn):
+                if isinstance(sc, (ast.FunctionDef, ast.AsyncFunctionDef)):
+                    _norm_loops(sc)
+                    _inline_temps(sc)
+            if ast.dump(fn) == before:
+                break
     except _Bail:
         pass
     _alpha(fn)
